@@ -72,18 +72,28 @@ def expand(case):
     return "".join(p[0] * p[1] for p in case["parts"])
 
 
-_COUNTED = ["(", "[", "{", "-", "!", "^", "+", "*", "/", "if ", "per ", "->", "|>", "&&", "||", ".", ",", "\n", "<", "=="]
+_COUNTED = ["(", "[", "{", "-", "!", "^", "+", "*", "/", "if ", "per ", "->", "|>", "&&", "||", ".", ",", "<", "=="]
 
 
 def repetition(case):
-    """how often the most repeated structural token occurs in the input (for `parts` cases: the largest repetition
-    count, times the number of submissions): the measure used by the deep-nesting / size signatures"""
+    """how often the most repeated structural token occurs in one line of the input (for `parts` cases: the largest
+    repetition count, times the number of submissions): the measure used by the deep-nesting / size signatures"""
     if "parts" in case:
         return max(p[1] for p in case["parts"]) * int(case.get("rep", 1) or 1)
-    t = case.get("text", "")
-    if len(t) < 500:
-        return max([t.count(c) for c in _COUNTED] + [0])
-    return max(t.count(c) for c in _COUNTED)
+    best = 0
+    for line in case.get("text", "").split("\n"):
+        if len(line) > best:
+            best = max([best] + [line.count(c) for c in _COUNTED])
+    return best
+
+
+def limit_of(case, tier):
+    return int(case.get("tmo", TIMEOUT_MS[tier]))
+
+
+def too_slow(case, r, tier):
+    """answered, but with more CPU time than the limit (the watchdog polls, so an answer can arrive slightly late)"""
+    return (r.get("ms") or 0) > limit_of(case, tier)
 
 
 def run_cases(sc, label, cases, tier, batch=1, workers=WORKERS, timeout_ms=None):
@@ -169,6 +179,9 @@ def sig_matches(v, sig):
                 return False
         elif key == "class_prefix":
             if not str(v.get("class", "")).startswith(want):
+                return False
+        elif key == "text_regex":
+            if not re.search(want, v.get("text", v.get("text_head", "")), re.UNICODE):
                 return False
         else:
             return False       # unknown key: never matches (narrow by construction)
@@ -286,6 +299,9 @@ def judge_sequences(cx, cases, info, rows):
     for case, r in zip(cases, rows):
         o = r["o"]
         rep.add("evaluations", 1)
+        if o in GOOD and too_slow(case, r, cx.tier):
+            cx.recheck.append(("G-sequences", case))
+            continue
         if o in GOOD:
             c = info[case["q"]]
             if not case.get("glued"):
@@ -348,6 +364,9 @@ def judge_boundary(cx, cases, rows):
         o = r["o"]
         f = fams.setdefault(case["fam"], {})
         f[outcome_head(o)] = f.get(outcome_head(o), 0) + 1
+        if o in GOOD and too_slow(case, r, cx.tier):
+            cx.recheck.append(("G-classes", case))
+            continue
         if o in GOOD:
             cx.nontrivial.add("class:" + case["id"])
             if case["fam"] == "factorial" and o == "ok":
@@ -393,7 +412,7 @@ def judge_j(cx, cases, rows):
     for case, r in zip(cases, rows):
         text = case["text"]
         rec = possibly_recursive(text, case["sess"], cx.stdlib)
-        limit = int(case.get("tmo", TIMEOUT_MS[cx.tier]))
+        limit = limit_of(case, cx.tier)
         ms = r.get("ms") or 0
         events.append({"class": case["class"], "len": len(text), "outcome": outcome_head(r["o"]), "cls": r.get("cls", ""),
                        "stage": r.get("st", ""), "ms": int(ms) if ms == int(ms) else int(ms) + 1, "limit": limit, "recursive": rec})
@@ -420,7 +439,7 @@ def judge_j(cx, cases, rows):
             e = events[base + i]
             if (i + 1) in bad:
                 case, r = cases[base + i], rows[base + i]
-                if r["o"] == "timeout":
+                if r["o"] == "timeout" or bad[i + 1] == "slow":
                     cx.recheck.append(("J/" + case["class"], case))
                 else:
                     cx.pending.append(make_violation("J/" + case["class"], case, r, extra={"verdict": bad[i + 1], "src": case.get("src")}))
@@ -438,17 +457,18 @@ def judge_j(cx, cases, rows):
 
 
 def confirm_timeouts(cx):
-    """a time-out is a violation only if it is confirmed by a second run on an otherwise idle pool (4 workers)"""
+    """a time-out (or an answer beyond the limit) is a violation only if a second run on a small pool (4 workers) confirms it"""
     if not cx.recheck:
         return
     cases = [c for _, c in cx.recheck]
     rows, _ = run_cases(cx.sc, "recheck", cases, cx.tier, batch=1, workers=4)
     flaky = 0
     for (source, case), r in zip(cx.recheck, rows):
-        if r["o"] in GOOD:
+        if r["o"] in GOOD and not too_slow(case, r, cx.tier):
             flaky += 1
             continue
-        cx.pending.append(make_violation(source, case, r, extra={"confirmed_by_second_run": True}))
+        kind = "timeout" if r["o"] in GOOD else None       # answered both times, but beyond the limit
+        cx.pending.append(make_violation(source, case, r, kind=kind, extra={"confirmed_by_second_run": True}))
     cx.rep.add("timeouts_first_run", len(cases))
     cx.rep.add("timeouts_not_confirmed", flaky)
 
@@ -527,7 +547,7 @@ def run(tier, seed):
     try:
         quick = tier == "quick"
         # J inputs need no TLC: the pool works on them while TLC enumerates the sequences and classes
-        jc = j_cases(cx, 20000 if quick else 120000)
+        jc = j_cases(cx, 20000 if quick else 100000)
         jres = {}
 
         def j_thread():
@@ -539,33 +559,42 @@ def run(tier, seed):
         th.start()
         mc_totality(cx, with_faulty=not quick)
         bc = boundary_cases(cx, long_session=not quick)
-        if quick:
-            sc_cases, sc_info = sequences_cases(cx, lambda a: 4, [0])
-        else:
-            sc_cases, sc_info = sequences_cases(cx, lambda a: 5, [1, 2, 3, 4])
-        th.join()
-        if "error" in jres:
-            raise jres["error"]
-        if not rep.violations:
-            brow, _ = run_cases(sc, "classes", bc, tier, batch=1, workers=WORKERS)
-            judge_boundary(cx, bc, brow)
-            srow, _ = run_cases(sc, "seq", sc_cases, tier, batch=64, workers=WORKERS)
+        # quick: alphabets 1-4 in one TLC run (length <= 4 for the 20-token core, <= 3 for the others);
+        # thorough: every alphabet with its own bound, one after the other (memory)
+        plan = [(0, 4)] if quick else [(1, 4), (2, 4), (3, 5), (4, 4), (5, 5), (6, 5), (7, 5)]
+        first = True
+        for alpha, bound in plan:
+            sc_cases, sc_info = sequences_cases(cx, lambda a: bound, [alpha])
+            if first:
+                th.join()
+                if "error" in jres:
+                    raise jres["error"]
+                first = False
+                if not rep.violations:
+                    brow, _ = run_cases(sc, "classes", bc, tier, batch=1, workers=WORKERS)
+                    judge_boundary(cx, bc, brow)
+            if rep.violations:
+                break
+            srow, _ = run_cases(sc, "seq%d" % alpha, sc_cases, tier, batch=64, workers=WORKERS)
             judge_sequences(cx, sc_cases, sc_info, srow)
+            del sc_cases, sc_info, srow
+        if not rep.violations:
             events, _ = judge_j(cx, jc, jres["rows"])
             confirm_timeouts(cx)
             self_tests(cx, events)
         report(cx)
         rep.set("distinct_nontrivial", len(cx.nontrivial))
-        rep.set("rule", "G (exhaustive part): every token sequence up to the length bound over 4 sub-alphabets (20-token expression "
+        rep.set("rule", "G (exhaustive part): every token sequence up to the length bound over %d sub-alphabets (20-token expression "
                 "core incl. 0 / 1e309 / unknown identifier / unit / function / = / string; 15 definition tokens; 10 conditional, "
-                "logic and string tokens; 12 lexical tokens) x {fresh prelude-free session, prelude session, text without blanks}; "
+                "logic and string tokens; 12 lexical tokens%s) x {fresh prelude-free session, prelude session, text without blanks}; "
                 "every boundary class of Overflow.tla (shape x exponent magnitude classes, operand x factorial order, construct x "
                 "depth 10..100 000 x session, literal and size classes). J: seeded random grammar-based programs (depth <= 8), "
                 "byte/char/token mutations of all example and module files, extreme literals, random UTF-8 / bytes. Every input "
                 "goes through the whole pipeline incl. rendering, in a child process. non-trivial = distinct inputs that get past "
-                "the parser (they reach name resolution, the type checker or the VM) plus boundary classes with a good outcome")
+                "the parser (they reach name resolution, the type checker or the VM) plus boundary classes with a good outcome"
+                % ((4, "") if quick else (7, "; three 12-token sub-alphabets of the core, one token longer")))
         rep.set("exhaustive", False)
-        rep.set("exhaustive_part", "token sequences up to the length bound over the 4 sub-alphabets (complete enumeration by TLC); "
+        rep.set("exhaustive_part", "token sequences up to the length bound over the sub-alphabets (complete enumeration by TLC); "
                 "the boundary classes (complete enumeration of the class combinations)")
         rep.assumptions += [
             "time is CPU time of the worker (limit %d ms per input; size classes 20 s, long sessions 120 s); a time-out is a violation only "
